@@ -20,7 +20,7 @@ RULE = (
     "generated: 1..8 concurrent callers (arrival time 0..20 s, kind in {get(CURCH, retry 1..10), press, "
     "set value, get watercare, set watercare, reminders}) next to the library's ping and refresh loops; "
     "spa->client fault tape (drop/delay per datagram) and client->spa drops; jitter tape (J<=50 ms); gate "
-    "state in {open, stale ping, not connected}; optionally a stream of 10..60 unclaimed datagrams 50..200 ms apart. Non-trivial = >=2 callers whose lock requests overlap and "
+    "state in {open, stale ping, not connected} (closed gates under the idle and the active timing table); optionally a stream of 10..60 unclaimed datagrams 50..200 ms apart. Non-trivial = >=2 callers whose lock requests overlap and "
     ">=1 lost or late reply, or a gated case; distinct by canonical case."
 )
 ASSUMPTIONS = [
@@ -48,10 +48,11 @@ def strategy(tier):
     # a stream of datagrams nobody claims (start s, count, gap ms): keeps the receive queue non-empty while callers wait
     noise = st.one_of(st.none(), st.none(), st.tuples(st.sampled_from([0.0, 0.5, 2.0]), st.integers(10, 60), st.sampled_from([50, 100, 200])).map(list))
     return st.builds(
-        lambda cs, s2c, c2s, j, gate, nz: dict({"callers": cs, "s2c": s2c, "c2s": c2s, "jitter": j, "gate": gate}, **({"noise": nz} if nz else {})),
+        lambda cs, s2c, c2s, j, gate, nz, mode: dict({"callers": cs, "s2c": s2c, "c2s": c2s, "jitter": j, "gate": gate}, **({"noise": nz} if nz else {}),
+                                                      **({"mode": "active"} if mode == "active" and gate != "open" else {})),
         st.lists(caller, min_size=1, max_size=8), st.lists(act, max_size=24),
         st.lists(st.sampled_from(["d", "d", "d", "x"]), max_size=10), jitter,
-        st.sampled_from(["open", "open", "open", "stale-ping", "not-connected"]), noise)
+        st.sampled_from(["open", "open", "open", "stale-ping", "not-connected"]), noise, st.sampled_from(["idle", "active"]))
 
 
 def _verb(datagram):
@@ -79,6 +80,11 @@ def run_case(case) -> Result:
         try:
             proto = spa._protocol
             lock = recording.install_lock(proto, W)
+            if case.get("mode") == "active":
+                # the active timing table (a pump is running): ping frequency 2 s, so "not answering pings" starts after 4 s
+                from geckolib.config import set_config_mode
+                set_config_mode(True)
+                await W.sleep(0.05)
             timeout, pause = GeckoConfig.PROTOCOL_TIMEOUT_IN_SECONDS, GeckoConfig.PAUSE_BETWEEN_RETRIES_IN_SECONDS
             if gate == "stale-ping":
                 spa._last_ping = W.clock.t - (GeckoConfig.PING_FREQUENCY_IN_SECONDS * 2 + 1)
@@ -241,7 +247,7 @@ def run_case(case) -> Result:
 
     W.run(main)
     res.nontrivial = (stats["overlap"] and stats["lost"]) or gate != "open"
-    res.label("gate-" + gate)
+    res.label("gate-" + gate + ("-active-table" if case.get("mode") == "active" else ""))
     if stats["overlap"]:
         res.label("overlapping-callers")
     if stats["lost"]:
